@@ -859,6 +859,32 @@ func (vc *VC) execInstr(fr *frame, n *Node, in ssa.Instruction) bool {
 		for _, r := range x.Results {
 			rs = append(rs, val(r))
 		}
+		if fr == vc.top && fr.fc != nil {
+			// `atreturn [label:] expr`: an obligation at every return statement where the clause's variables are in
+			// scope (a return inside a loop sees the loop's locals); $resN are the values being returned
+			for k, ac := range fr.fc.AtReturns {
+				base := vc.nodeLookup(fr, n, nil, nil)
+				lookup := func(name string) (Val, bool) {
+					if strings.HasPrefix(name, "$res") {
+						var i int
+						if _, err := fmt.Sscanf(name[4:], "%d", &i); err == nil && i >= 0 && i < len(rs) {
+							return rs[i], true
+						}
+						return Val{}, false
+					}
+					return base(name)
+				}
+				ctx := &SpecCtx{vc: vc, lookup: lookup, st: n.st, oldSt: fr.entrySt, oldLookup: func(name string) (Val, bool) { return vc.paramLookup(fr, name) }, pkg: fr.fn.Pkg.Pkg, fnName: fr.fn.Name(), fr: fr}
+				t, err := ctx.EvalBool(ac.E)
+				if err != nil {
+					ac.Skipped++
+					vc.enc.notes[fmt.Sprintf("atreturn clause %q does not apply to the return at %s (%v)", truncate(ac.Text, 40), vc.pos(x.Pos()), err)] = true
+					continue
+				}
+				ac.Applied++
+				vc.oblige("atreturn", fmt.Sprintf("atreturn%s.b%d", labelOr(ac.Label, k), n.blk.Index), ac.Text, vc.pos(x.Pos()), n.reach, t)
+			}
+		}
 		fr.rets = append(fr.rets, retInfo{reach: n.reach, results: rs, st: st.clone()})
 		return false
 	case *ssa.Panic:
